@@ -159,6 +159,26 @@ func (s *Sched) yield(self *G) {
 	s.cur = self
 }
 
+// preemptPoint: with schedule exploration on, every synchronisation operation is a point where
+// another runnable goroutine may be chosen to continue instead (forked).
+func (s *Sched) preemptPoint() {
+	if !s.r.allSchedules || s.cur == nil {
+		return
+	}
+	n := 0
+	for _, g := range s.gs {
+		if g.state == gRunnable && g != s.cur {
+			n++
+		}
+	}
+	if n == 0 {
+		return
+	}
+	g := s.cur
+	g.state = gRunnable
+	s.yield(g)
+}
+
 func (s *Sched) block(why string) {
 	g := s.cur
 	g.state = gBlocked
